@@ -23,7 +23,7 @@ fn spec0(tier: Tier) -> RunSpec {
         8,
         "section responses: the G-REQ campaign (valid and malformed requests, all nine methods, hostile Origin / Access-Control-Request-* / Range / Content-Type values with CR, LF, NUL, colons) on both entry points; \
 every emitted response must parse with M-HTTP (status line, registered code with its reason phrase, name: value lines without bare CR/LF, blank line, body), Content-Length == body bytes (empty body for HEAD/OPTIONS, 1xx/204/304), \
-no framing header twice, no header line whose name is outside the server's vocabulary (reflected text cannot add or split lines). \
+no framing header twice, no header line (with a name rws is not known to emit) whose text comes from a request header value (reflected text cannot add or split lines). \
 section transport: a pool of requests x write scripts (every chunk size 1..64 and 100/1000/4096, a two-chunk boundary at every byte offset of the head, random chunk sequences, Ok(0), write error after k bytes, flush error); \
 oracle = bytes accepted by the transport equal the response produced on an unlimited transport modulo the timestamp value (prefix for write errors), and no panic. \
 section transport-binary: the release binary over loopback with a client that reads slowly (default or 64-256 KiB receive buffer - smaller ones make loopback TCP itself stall on window updates -, reads of 1..65536 bytes and pauses for the first 2000 reads) - full 3 MiB bodies, single ranges, up to 1500-part multipart responses; the bytes that arrive must equal the in-process response modulo the timestamp. \
@@ -70,6 +70,13 @@ pub fn eval_response(ctx: &Ctx, c: &ServerCase) -> Verdict {
                     problems.push((p.sig.clone(), format!("{}; {}", p.detail, describe(&e))));
                 }
                 for n in notes { ctx.note(n); }
+                // a response header line that rws is not known to emit and whose text ("name: value") the client sent inside a header *value*
+                // (after a bare CR or LF, i.e. not as a header line of its own) was added by reflected text
+                for (n, v) in r.headers.iter().filter(|(n, _)| !mhttp::SERVER_VOCABULARY.iter().any(|k| k.eq_ignore_ascii_case(n))) {
+                    let line = format!("{}: {}", n, v);
+                    let injected = c.req.base.headers.iter().any(|(_, hv)| crate::fw::util::contains_sub(&hv.0, line.as_bytes()));
+                    if injected { problems.push(("header-line-added-by-reflected-text".to_string(), format!("response header line {:?} is text from a request header value; {}", line, describe(&e)))); }
+                }
                 if r.status >= 400 { classes.push("error-path-response"); nontrivial = true; }
                 if e.no_body_by_method == Some(true) { classes.push("head-or-options"); nontrivial = true; }
                 let reflected = r.headers.iter().any(|(n, v)| n.starts_with("Access-Control-") && !v.is_empty());
